@@ -470,6 +470,10 @@ pub fn server_stream_job_with_command(prop: &str, cfg: &ServerCfg, label: &str, 
 
 pub fn replay_server_stream_command(v: &serde_json::Value) -> Vec<(String, String)> {
     let cfg: ServerCfg = serde_json::from_value(v["cfg"].clone()).unwrap();
+    if v["kind"] == "c07-rtu-reopen" {
+        let level: (u8, u8, u8) = serde_json::from_value(v["level"].clone()).unwrap();
+        return rtu_server_reopen_case(level, &from_hex(v["stream"].as_str().unwrap())).1;
+    }
     let stream = from_hex(v["stream"].as_str().unwrap());
     let cuts: Vec<usize> = v["cuts"].as_array().unwrap().iter().map(|x| x.as_u64().unwrap() as usize).collect();
     let exp = server_expect(&cfg, &stream);
@@ -1232,6 +1236,88 @@ fn c07_client_case(rtu: bool, level: (u8, u8, u8), req: &Req, stream: &[u8], tai
     }
 }
 
+/// The production RTU server task re-opens its port after every session error and runs the *same*
+/// session object (same frame reader, same parser) again. This replays that loop: the stream is
+/// delivered, and while the session keeps ending with errors it is run again on a fresh, quiet
+/// line, then with valid probe requests. Oracle ("spin without progress"): a session error must be
+/// caused by input, so the number of session errors can never exceed the number of bytes received;
+/// a server that fails again and again without consuming anything is wedged for good. Whether and
+/// when a probe is answered again depends on the resynchronisation policy, which the property
+/// leaves open: it is recorded, not judged.
+pub fn rtu_server_reopen_case(level: (u8, u8, u8), stream: &[u8]) -> (Option<usize>, Vec<(String, String)>) {
+    use rodbus::server::RequestHandler;
+    use std::sync::{Arc, Mutex};
+    const PROBES: usize = 4;
+    let cfg = dense_cfg(true, level);
+    let log: crate::hserver::Log = Arc::new(Mutex::new(vec![]));
+    let mut map = rodbus::server::ServerHandlerMap::new();
+    for (u, spec) in &cfg.units {
+        let h = crate::hserver::RecHandler { unit: *u, app: spec.build(), log: log.clone() }.wrap();
+        map.add(rodbus::UnitId::new(*u), h);
+    }
+    let (handle, session) = rodbus::verif::server_session(rodbus::verif::Framing::Rtu, map, None, decode_level(level));
+    let probe_pdu = read_pdu(3, 0, 3);
+    let probe = rtu_frame(1, &probe_pdu);
+    let want = {
+        let mut m = cfg.model();
+        let e = m.handle(1, &probe_pdu);
+        rtu_frame(1, &e.replies[0])
+    };
+    let mut session = Some(session);
+    let mut out = vec![];
+    let mut errors = 0usize;
+    let mut bytes = 0usize;
+    let mut probes_sent = 0usize;
+    let mut recovered: Option<usize> = None;
+    let mut pending: Option<Vec<u8>> = Some(stream.to_vec());
+    'rounds: loop {
+        let (sio, io) = crate::sim::script_io();
+        let mut sess = session.take().unwrap();
+        let mut task = Task::new(async move {
+            let e = sess.run(Box::new(sio)).await;
+            (e, sess)
+        });
+        loop {
+            if let Some(b) = pending.take() {
+                bytes += b.len();
+                io.deliver(&b);
+            }
+            if crate::sim::run_until_quiescent(&mut [&mut task], POLL_BUDGET).is_none() {
+                out.push(("busy-loop".into(), "poll budget exceeded after the port was re-opened".into()));
+                break 'rounds;
+            }
+            if let Some(p) = &task.panicked {
+                out.push(("panic".into(), format!("panic after the port was re-opened: {p}")));
+                break 'rounds;
+            }
+            if probes_sent > 0 && recovered.is_none() && io.take_written_flat().ends_with(&want) {
+                recovered = Some(probes_sent);
+            }
+            if task.is_done() {
+                let (_e, sess) = task.output.take().unwrap();
+                session = Some(sess);
+                errors += 1;
+                if errors > bytes + 1 {
+                    out.push((
+                        "session-errors-without-input".into(),
+                        format!("{errors} session errors after only {bytes} bytes were ever received: the re-opened session fails again and again without consuming input"),
+                    ));
+                    break 'rounds;
+                }
+                continue 'rounds;
+            }
+            // the session is waiting for input
+            if errors == 0 || probes_sent == PROBES {
+                break 'rounds;
+            }
+            probes_sent += 1;
+            pending = Some(probe.clone());
+        }
+    }
+    drop(handle);
+    (if errors > 0 { Some(recovered.unwrap_or(0)) } else { None }, out)
+}
+
 /// request with `timeout` ms outstanding; a stale (other transaction id) frame every `gap` ms
 pub fn c07_drip(level: (u8, u8, u8), timeout: u64, gap: u64, rounds: usize) -> Vec<(String, String)> {
     let mut out = vec![];
@@ -1337,7 +1423,7 @@ pub fn check_c07(tier: &str) -> i32 {
         "C07",
         tier,
         "exploration",
-        "the k-deviation neighbourhood of valid traffic, exhaustively: for every seed frame (requests and responses of all eight functions, exceptions, maximum-size frames; MBAP and RTU) every 1-byte substitution, deletion, insertion over {00,01,7F,80,FF}, truncation, (thorough: every pair of substitutions over a 12-value lattice), each optionally followed by EOF / connection reset / timed-out read; plus all byte strings of length <= 2 (thorough 3) and all strings of length <= L over the 12-value lattice from a cold start; x {server, client} x {MBAP, RTU} x decode levels {nothing, everything} (thorough: all 36 on the 1-deviation set). Built with overflow checks and debug assertions; every poll is wrapped in catch_unwind; quiescence must be reached within a poll budget; the full reference-model oracle of C05/C06 is applied and shutdown must still end the task. distinct = distinct (role, framing, reference verdict, observation) tuples",
+        "the k-deviation neighbourhood of valid traffic, exhaustively (plus, for the RTU server, the production re-open loop: the same session object is run again after every session error, with and without further valid requests, and may never fail more often than it received bytes): for every seed frame (requests and responses of all eight functions, exceptions, maximum-size frames; MBAP and RTU) every 1-byte substitution, deletion, insertion over {00,01,7F,80,FF}, truncation, (thorough: every pair of substitutions over a 12-value lattice), each optionally followed by EOF / connection reset / timed-out read; plus all byte strings of length <= 2 (thorough 3) and all strings of length <= L over the 12-value lattice from a cold start; x {server, client} x {MBAP, RTU} x decode levels {nothing, everything} (thorough: all 36 on the 1-deviation set). Built with overflow checks and debug assertions; every poll is wrapped in catch_unwind; quiescence must be reached within a poll budget; the full reference-model oracle of C05/C06 is applied and shutdown must still end the task. distinct = distinct (role, framing, reference verdict, observation) tuples",
     );
     let thorough = rep.thorough();
     crate::sim::trace::take_counts();
@@ -1399,6 +1485,46 @@ pub fn check_c07(tier: &str) -> i32 {
         st.sample(json!({"role": "server", "rtu": rtu, "seed": hex(seed), "level": format!("{level:?}"), "mutants": n}));
     });
     rep.phase("server: 1-deviation neighbourhood", st, json!({"levels": levels.len()}));
+    // the RTU server task runs the same session again after every session error
+    let rtu_seeds: Vec<Vec<u8>> = server_seeds.iter().filter(|(rtu, _)| *rtu).map(|(_, s)| s.clone()).collect();
+    let st = parallel(rtu_seeds.len() * 2, |j, st| {
+        let seed = &rtu_seeds[j / 2];
+        let level = if j % 2 == 0 { (0, 0, 0) } else { (3, 2, 2) };
+        let mut run = |m: &[u8], st: &mut Stats| {
+            let describe = || ("c07-rtu-reopen".to_string(), format!("RTU server re-open, level {level:?} stream {}", hex(m)), json!({"kind": "c07-rtu-reopen", "level": level, "stream": to_hex(m)}));
+            let (ended, problems) = crate::sim::watchdog::guard(&describe, || rtu_server_reopen_case(level, m));
+            st.evaluations += 1;
+            match ended {
+                None => {}
+                Some(0) => {
+                    st.class("rtu-server-reopened:no-probe-answered-within-4");
+                    st.traces += 1;
+                }
+                Some(_) => {
+                    st.class("rtu-server-reopened:probe-answered");
+                    st.traces += 1;
+                }
+            }
+            st.observe(&(ended, problems.len(), m.len().min(8)));
+            for (sig, desc) in problems {
+                st.violation(Violation {
+                    signature: sig,
+                    summary: format!("RTU server re-open, level {level:?}, stream {}: {desc}", hex(m)),
+                    replay: json!({"kind": "c07-rtu-reopen", "level": level, "stream": to_hex(m)}),
+                });
+            }
+        };
+        mutate_1(seed, &mut |m| run(&m, st));
+        // the rejected frame followed by filler and by a second rejected frame
+        mutate_1(seed, &mut |m| {
+            if m.len() == seed.len() && m[..2] == seed[..2] {
+                let mut s2 = m.clone();
+                s2.extend_from_slice(&[0u8; 9]);
+                run(&s2, st);
+            }
+        });
+    });
+    rep.phase("RTU server: session re-run after every session error (port re-open)", st, json!({"probes": 4, "oracle": "session errors <= bytes received + 1"}));
     let st = parallel(client_seeds.len() * levels.len(), |j, st| {
         let (rtu, req, seed) = &client_seeds[j / levels.len()];
         let level = levels[j % levels.len()];
